@@ -357,6 +357,19 @@ def run(tier, repo=None, tag="repo"):
         rules_c01.apply(F, m_)
     except (symex.Unsupported, KeyError, IndexError, TypeError, AttributeError) as e:
         Sink.bad(m_, "V5", "unrecognised", "window-invariants", "UNRECOGNISED idiom while establishing the window invariants: %r" % (e,))
+    # "at the start of a stream or after arbitrary earlier activity" includes activity ended by reset(): the flat-window corollaries (V5, V6) and
+    # the sign premises of V1 are about the state reset() is supposed to restore
+    rep.rule("V7", "reset() restores the constructor state of every indicator (C04's rules), so a flat stretch after reset() starts from the state the corollaries assume; no other method writes their state", 22)
+    rules_c01.reset_premise(F, rep, "V7", list(F.indicators()))
+    # FastStochastic's guard `max == min` fires on a flat window only if Maximum / Minimum return the extremes of exactly that window
+    rep.rule("V8", "Minimum and Maximum return the extreme of the current window (C01's I6 / I7), so on a flat window they are equal and FastStochastic's neutral arm is taken", 2)
+    from rules_c14 import mirror
+    m8 = _Map(rep, {"I6": "V8", "I7": "V8"})
+    try:
+        rules_c01.extreme_unit(F, m8, "Minimum", "I6")
+        rules_c01.extreme_unit(F, m8, "Maximum", "I7", transform=mirror)
+    except (symex.Unsupported, KeyError, IndexError, TypeError, AttributeError) as e:
+        Sink.bad(m8, "V8", "unrecognised", "Minimum/Maximum", "UNRECOGNISED idiom while establishing the window-extreme contract: %r" % (e,))
     inv = rep.rule("V0", "all 22 indicators analysed (fully inlined terms, class invariants)", 22)
     for s_ in F.indicators():
         inv.ok(s_)
